@@ -144,6 +144,10 @@ def build(e):
             v = build(e[1]) | build(e[2])
         elif k == 'not':
             v = ~build(e[1])
+        elif k == 'guard':
+            # guard-style leaf: the right operand is a partial predicate (raises for what the left operand lets through)
+            v = (~IsInstance[int] | Is[H.vpred_partial_positive]) if e[1] == 'int' else \
+                (~IsInstance[list] | Is[H.vpred_is_empty] | Is[H.vpred_partial_first_truthy])
         else:
             raise ValueError(e)
         if len(_VCACHE) > 20000:
@@ -174,6 +178,10 @@ def meaning(e, x):
         return meaning(e[1], x) or meaning(e[2], x)
     if k == 'not':
         return not meaning(e[1], x)
+    if k == 'guard':
+        if e[1] == 'int':
+            return (not isinstance(x, int)) or x > 0
+        return (not isinstance(x, list)) or len(x) == 0 or bool(x[0])
     raise ValueError(e)
 
 
@@ -206,6 +214,7 @@ def exprs(depth, names=None):
         st.sampled_from(CONSTS).map(lambda c: ['eq', c]),
         st.lists(st.sampled_from(TYPES), min_size=1, max_size=2, unique=True).map(lambda t: ['inst', t]),
         st.lists(st.sampled_from(TYPES), min_size=1, max_size=2, unique=True).map(lambda t: ['sub', t]),
+        st.sampled_from(['int', 'list']).map(lambda g: ['guard', g]),
     )
     if depth <= 0:
         return leaf
@@ -258,6 +267,10 @@ def obj_for(draw, e, depth=0):
         return {'int': ['i', 5], 'str': ['s', 'q'], 'bool': ['b', True], 'float': ['f', 2.5]}.get(c, ['obj', c])
     if k == 'sub':
         return ['class', draw(st.sampled_from(e[1]))]
+    if k == 'guard':
+        # objects on both sides of the guard: the partial operand must only ever see what it can digest
+        return draw(st.sampled_from([['i', 4], ['i', 0], ['i', -1], ['s', 'zz'], ['n'], ['list', []], ['list', [['i', 0]]],
+                                     ['list', [['i', 2]]], ['tuple', [['i', 1], ['i', 2]]]]))
     if k == 'is':
         return draw(st.sampled_from([['i', 4], ['s', 'zz'], ['tuple', [['i', 1], ['i', 2]]], ['i', 0], ['n']]))
     if k in ('and', 'or'):
